@@ -53,10 +53,10 @@ def gen_boundary(tier, rng):
                     n += 1
                     if n % (8 if tier == "quick" else 2):
                         continue
-                    slay = srcs[n % len(srcs)]
+                    slay = rz.pick(n, 106, srcs)
                     typed = slay["k"].startswith("typed")
                     dlay = dsts["typed" if typed else "dyn"][n % (3 if typed else 4)]
-                    cases.append(rz.resize_case(pt, sw, sh, dw, dh, alg=alg, flt=flt, m=m, alpha=n % 2 == 0, cpu=rz.CPUS[n % 3],
+                    cases.append(rz.resize_case(pt, sw, sh, dw, dh, alg=alg, flt=flt, m=m, alpha=n % 2 == 0, cpu=rz.pick(n, 102, rz.CPUS),
                                                 src_c={"g": "rand", "seed": n, "flo": 0.0, "fhi": 1.0}, src_lay=slay, dst_lay=dlay,
                                                 api="typed" if typed else "dyn", log=("digest",), chk=("pipeline", "no_panic", "outside", "srcsame")))
     # 2. crop boxes: flush against every edge, sub-pixel, rational grid (pipeline-checked)
@@ -71,9 +71,9 @@ def gen_boundary(tier, rng):
                         n += 1
                         if n % (6 if tier == "quick" else 2):
                             continue
-                        cases.append(rz.resize_case(pt, sw, sh, dw, dh, alg=alg, flt=flt, m=m, alpha=n % 2 == 0, box=box, Q=Q, cpu=rz.CPUS[n % 3],
+                        cases.append(rz.resize_case(pt, sw, sh, dw, dh, alg=alg, flt=flt, m=m, alpha=n % 2 == 0, box=box, Q=Q, cpu=rz.pick(n, 103, rz.CPUS),
                                                     src_c={"g": "rand", "seed": n, "flo": 0.0, "fhi": 1.0}, src_lay=srcs[n % 4],
-                                                    dst_lay=dsts["dyn"][n % 4], log=("digest",), chk=("pipeline", "no_panic", "outside", "srcsame")))
+                                                    dst_lay=dstsrz.pick(n, 107, ["dyn"]), log=("digest",), chk=("pipeline", "no_panic", "outside", "srcsame")))
     # 3. crop boxes outside the rational grid: one ulp inside the right/bottom edge, denormal extents, non-finite, negative
     for pt in ("U8", "U8x4", "U16", "F32", "U16x4"):
         for (sw, sh) in ((1, 1), (4, 3), (100, 2)):
@@ -94,8 +94,8 @@ def gen_boundary(tier, rng):
                         n += 1
                         if n % (4 if tier == "quick" else 1):
                             continue
-                        cases.append(raw_crop_case(pt, sw, sh, dw, dh, crop, alg, flt, rz.CPUS[n % 3], n, ("no_panic", "outside", "srcsame"), m=m,
-                                                   src_lay=srcs[n % 4], dst_lay=dsts["dyn"][n % 4]))
+                        cases.append(raw_crop_case(pt, sw, sh, dw, dh, crop, alg, flt, rz.pick(n, 104, rz.CPUS), n, ("no_panic", "outside", "srcsame"), m=m,
+                                                   src_lay=srcs[n % 4], dst_lay=dstsrz.pick(n, 108, ["dyn"])))
     # 4. custom kernels: sum |w| < 4 must neither panic nor crash; beyond that at least no crash / abort
     for pt in rz.ALL_PT:
         for (flt, fparam, support, lim) in (("c_lobes", (12, 64), (3, 2), "nopanic"), ("c_lobes", (45, 64), (3, 2), "nopanic"), ("c_lobes", (47, 64), (3, 2), "nopanic"),
@@ -107,7 +107,7 @@ def gen_boundary(tier, rng):
                     n += 1
                     if n % (4 if tier == "quick" else 1):
                         continue
-                    c = rz.resize_case(pt, sw, sh, dw, dh, alg=alg, flt=flt, m=1, alpha=False, cpu=rz.CPUS[n % 3], support=support,
+                    c = rz.resize_case(pt, sw, sh, dw, dh, alg=alg, flt=flt, m=1, alpha=False, cpu=rz.pick(n, 105, rz.CPUS), support=support,
                                        src_c={"g": "rand", "seed": n, "flo": 0.0, "fhi": 1.0} if n % 2 else
                                              ({"g": "const", "v": [rz.PT[pt]["max"]]} if rz.PT[pt]["comp"] != "f32" else {"g": "const", "v": [rz.f32bits(1.0)]}),
                                        src_lay={"k": "image_ref", "guard": 1}, dst_lay={"k": "slice", "guard": 1}, log=("digest",),
